@@ -930,6 +930,26 @@ def r44(ctx: Ctx) -> RuleReport:
                 fi.loc(r.ast), 'violation' if bad_path else 'ok',
                 'an edge can be answered "not inverted" without looking at the node contexts: an inverted re-entrancy written '
                 'directly under the top (or under any node that was never pushed) is misreported' if bad_path else '')
+    # the two comparisons are for relations only: an instance triple whose concept is spelled like a variable must not get there
+    role_ok = {(f'{tp}[1] == CONCEPT_ROLE', False), (f'{tp}[1] != CONCEPT_ROLE', True)}
+    for r in [nd for nd in cfg.nodes if nd.kind == 'stmt' and isinstance(nd.ast, ast.Return) and isinstance(nd.ast.value, ast.Compare)]:
+        seen, stack, hit = set(), [cfg.entry], False
+        while stack:
+            n = stack.pop()
+            if n in seen:
+                continue
+            seen.add(n)
+            if n == r.id:
+                hit = True
+                break
+            node = cfg.nodes[n]
+            for m, lab in cfg.succ[n]:
+                if node.kind == 'cond' and (norm(node.ast), lab == 'T') in role_ok:
+                    continue
+                stack.append(m)
+        rep.add(f'penman.layout:appears_inverted: `{norm(r.ast)}` is reached only for non-instance triples', fi.loc(r.ast), 'violation' if hit else 'ok',
+                f'an instance triple can reach `{norm(r.ast)}`: for a node like (a / a), whose concept is spelled like a variable, the concept is compared with the node context '
+                f'and the instance triple is reported as inverted' if hit else '')
     # Push present: answer is `pushed variable == source`; otherwise `node context == target`
     from ..resolve import expand
     rets = [n for n in walk_local(fi.node) if isinstance(n, ast.Return) and isinstance(n.value, ast.Compare)
